@@ -249,12 +249,17 @@ def run(ctx):
     ctx.cov['max_pages_in_behaviours'] = pages
     ctx.sample({'kind': 'behaviour', 'ops': [(s['op'], s['a'], s['id'], s['k'], s['m']) for s in behs[0]['steps'][:10]]})
     inp = {'names': {str(n['id']): {'nlen': n['nlen'], 'b': n['b'], 'hex': n['hex']} for n in names},
-           'behaviours': behs, 'random': ctx.pick(40, 500), 'random_len': ctx.pick(25, 40), 'meta_lens': lib_metas}
+           'behaviours': behs, 'random': ctx.pick(40, 500), 'random_len': ctx.pick(25, 40), 'meta_lens': lib_metas,
+           'chains': ctx.pick([530, 700], [513, 514, 515, 700, 1100, 2100])}   # one bucket, many pages: longer than a page of 32-byte units (512) and than the bucket count
     recs, rc, out = ctx.run_harness(PKG, 'TestVerifC10Ops', inp=inp, timeout=2400)
     summ = [x for x in recs if x.get('kind') == 'summary']
     if not summ:
         raise Infra('C10 ops harness wrote no summary:\n' + out[-2000:])
     ctx.cov['traces_validated_against_impl'] += summ[0]['matched']       # behaviours whose every step matched the model state exactly
+    ctx.cov['long_chains'] = [{'names_in_one_bucket': x['n'], 'file_size': x['size']} for x in recs if x.get('kind') == 'chain-ok']
+    for x in recs:
+        if x.get('kind') == 'infra':
+            raise Infra('C10 ops harness: %s' % x.get('what'))
     ctx.cov['behaviours_replayed'] = summ[0]['behaviours']
     ctx.cov['behaviour_steps'] = summ[0]['steps']
     ctx.cov['races_fired'] = summ[0].get('races', 0) + sum(x.get('races', 0) for x in recs if x.get('kind') == 'summary2')
@@ -266,6 +271,7 @@ def run(ctx):
                           'layout': 'the independent decoder finds the written file malformed',
                           'library-read': 'the library reads the file differently from the independent decoder',
                           'meta': 'metadata block differs from the documented one', 'header-bytes': 'header bytes differ from the documented header',
+                          'chain': 'a chain of many colliding names over several pages is not read back as written',
                           'op-error': 'the operation failed'}.get(m.get('what'), m.get('what')), json.dumps(m)[:700]))
     divs = [x for x in recs if x.get('kind') == 'divergence']
     ctx.cov['divergences'] += summ[0].get('diverged', 0)
